@@ -241,11 +241,19 @@ func main() {
 	if c.Thorough() {
 		nGroup, nSolve = 12000, 7000
 	}
+	dbg := os.Getenv("C02_DEBUG") // case id to run alone with a dump (development aid)
 	for i := 0; i < nGroup; i++ {
-		runGroup(c, c.Rand.Fork())
+		f := c.Rand.Fork()
+		if dbg == "" {
+			runGroup(c, f)
+		}
 	}
 	for i := 0; i < nSolve; i++ {
-		runSolve(c, c.Rand.Fork(), i)
+		f := c.Rand.Fork()
+		if dbg == "" || dbg == fmt.Sprint(nGroup+i) {
+			debugDump = dbg != ""
+			runSolve(c, f, i)
+		}
 	}
 	c.Meta.Rule = "A: random op sequences (Register/Record/Unregister/Get) on a real TopologyGroup, requirements over a 7-value universe incl. numerals, bounds, complements and the empty label value; " +
 		"B: real Provisioner.NewScheduler + Scheduler.Solve on generated clusters (pools with/without zone requirements and taints, bound pods with and without constraints, batches of deployment-shaped pods with required/preferred affinity, anti-affinity, spread)"
